@@ -13,10 +13,10 @@
 //!         each findable through `search_vec` at distance 0 and returned by `frame_embedding`; whenever
 //!         nothing is pending the same set computed from the reference statuses alone.
 //!
-//! Exclusions (documented in props/C14.json): `commit_skip_indexes` drops the delta's embeddings — owned
-//! by C40 (fixes/C40.diff), the generator never issues it (`--with-skip 1` adds the witness);
-//! `doctor` with `rebuild_vec_index` empties the index — repaired by fixes/C21.diff, generated doctor
-//! runs never ask for it (`--with-doctor-rv 1` adds the witness).
+//! Exclusion (documented in props/C14.json): `commit_skip_indexes` clears the persisted vector index
+//! until `finalize_indexes` runs (membership along that pattern is property C40): the generator never
+//! issues it (`--with-skip 1` adds a skip / reopen witness).  Doctor runs — with and without
+//! `rebuild_vec_index` — are inserted into generated histories (`with_doctor`).
 //!
 //! Scale scenario (`scale_case`): N embedded puts straight on the API (N on both sides of
 //! HNSW_THRESHOLD = 1000), commit, delete / update / put, commit, reopen.  In the default build the
@@ -131,7 +131,8 @@ fn oracle_c14(l: &mut Ledger, v: &mut StepView) -> Option<(String, String)> {
             return Some(("vec-index-differs-from-acknowledged-calls".into(), format!(
                 "nothing pending after `{}`: index {} ; active embedded frames by the acknowledged calls {}", v.op.name(), ids_of(&got), ids_of(&want_ref))));
         }
-        if let (Some((count, _, _)), Some(es)) = (obs.index.vec_manifest, &obs.vec) {
+        // (a skip-index commit leaves the placeholder manifest beside the in-memory index until finalize_indexes)
+        if let (Some((count, _, _)), Some(es), false) = (obs.index.vec_manifest, &obs.vec, matches!(v.op, Op::CommitSkip)) {
             if count as usize != es.len() {
                 return Some(("vector-count-differs-from-index".into(), format!("manifest vector_count {count}, index has {} entries", es.len())));
             }
@@ -252,11 +253,10 @@ fn corpus(args: &Args) -> Vec<(String, Vec<Op>)> {
             eput(PayloadKind::Ascii, 400, 51, 100, 3), eput(PayloadKind::Ascii, 2600, 52, 101, 3), Op::EndBatch, Op::Commit, Op::Finalize,
             Op::Delete { id: 0 }, Op::Commit, Op::Finalize, Op::Reopen]),
     ];
-    if args.extra.get("with-doctor-rv").map(|s| s == "1").unwrap_or(false) {
-        c.push(("doctor-rebuild-vec".into(), vec![eput(PayloadKind::Ascii, 40, 61, 100, 3), Op::Commit, doctor(false, false, false, true)]));
-    }
+    c.push(("doctor-rebuild-vec".into(), vec![eput(PayloadKind::Ascii, 40, 61, 100, 3), eput(PayloadKind::Ascii, 44, 62, 101, 3), Op::Commit,
+        Op::Delete { id: 0 }, doctor(false, false, false, true), Op::Update(upd(1)), doctor(true, true, true, true), Op::Reopen]));
     if args.extra.get("with-skip").map(|s| s == "1").unwrap_or(false) {
-        c.push(("skip-index-commit".into(), vec![eput(PayloadKind::Ascii, 40, 71, 100, 3), Op::CommitSkip, Op::Finalize]));
+        c.push(("skip-index-commit".into(), vec![eput(PayloadKind::Ascii, 40, 71, 100, 3), Op::CommitSkip, Op::Reopen]));
     }
     c
 }
@@ -267,7 +267,7 @@ fn profile(thorough: bool, long: bool) -> GenProfile {
     p.wrong_dim_percent = 4;
     p.instant_index_percent = 15;
     p.w_skip = 0;   // owned by C40
-    p.w_doctor = 0; // doctor runs (without rebuild_vec_index) are inserted afterwards, see `with_doctor`
+    p.w_doctor = 0; // doctor runs are inserted afterwards, see `with_doctor`
     p.w_update = 16; p.w_delete = 14; p.w_vacuum = 4; p.w_crash = 4; p.w_reopen = 6; p.w_finalize = 2;
     if long {
         p.w_put = 70; p.w_update = 9; p.w_delete = 9; p.w_commit = 2; p.w_reopen = 2; p.w_crash = 2; p.w_vacuum = 1;
@@ -276,7 +276,7 @@ fn profile(thorough: bool, long: bool) -> GenProfile {
     p
 }
 
-/// insert doctor runs (never with rebuild_vec_index) at random places of a generated op list; the
+/// insert doctor runs (with and without rebuild_vec_index) at random places of a generated op list; the
 /// frame table after a doctor run is the one before it, so the ids the generator aimed at stay valid
 fn with_doctor(ops: &[Op], rng: &mut Rng) -> Vec<Op> {
     let mut out = Vec::with_capacity(ops.len() + 3);
@@ -285,7 +285,7 @@ fn with_doctor(ops: &[Op], rng: &mut Rng) -> Vec<Op> {
     let mut in_batch = false;
     for (i, op) in ops.iter().enumerate() {
         // a doctor run ends batch mode (the handle is dropped): keep it outside batches
-        if places.contains(&i) && !in_batch { out.push(doctor(rng.chance(40, 100), rng.bool(), rng.bool(), false)); }
+        if places.contains(&i) && !in_batch { out.push(doctor(rng.chance(40, 100), rng.bool(), rng.bool(), rng.bool())); }
         match op { Op::BeginBatch { .. } => in_batch = true, Op::EndBatch => in_batch = false, _ => {} }
         out.push(op.clone());
     }
@@ -519,8 +519,8 @@ fn main() {
     let mut drv: Option<Driver> = if args.driver.as_os_str() == "none" { None } else { Some(Driver::spawn(&args.driver).expect("spawn driver")) };
     let mut sum = Summary::new("C14", &args,
         "operation histories with embedded puts (put_with_embedding, put_with_chunk_embeddings), update_frame with / without embedding, \
-         delete_frame, commit, drop+open, crash+open (WAL replay), read-only open, batch mode, finalize_indexes, vacuum, doctor (without \
-         rebuild_vec_index) on a real .mv2 file and on the Lean Core model, full observation compared after every op and the vector-index \
+         delete_frame, commit, drop+open, crash+open (WAL replay), read-only open, batch mode, finalize_indexes, vacuum, doctor (with / \
+         without rebuild_vec_index) on a real .mv2 file and on the Lean Core model, full observation compared after every op and the vector-index \
          oracle (entries, frame_embedding, search_vec with own embedding, vector_count) evaluated after every op; plus the scale scenario \
          (N embedded puts around HNSW_THRESHOLD straight on the API, compared with the representation simulator); non-trivial = the index \
          held at least one vector and at least two mutations were acknowledged; distinct = op/answer trace");
